@@ -137,6 +137,8 @@ def KeyOk : KeyName → Prop
   | .pubk b i => b < 4294967296 ∧ i < 4294967296
   | _ => True
 
+instance (k : KeyName) : Decidable (KeyOk k) := by cases k <;> simp only [KeyOk] <;> infer_instance
+
 theorem genName_dbName : ∀ k ∈ fixedKeys, KeyName.dbName k = some (genName k) := by decide
 
 theorem fixedOfBytes_key : ∀ k ∈ fixedKeys, fixedOfBytes (key (genName k)) = some k := by decide
